@@ -229,7 +229,20 @@ def run_case(case, ctx):
                     comp.add(nb)
                     todo.append(nb)
         exclude = sorted(comp)
-    w = {"n": n, "bonds": bonds, "uff_types": utypes, "exclude": exclude}
+    if case["exclude"] == "random" and case["s"] % 3 == 0:
+        # the bonded fragment inside a large host of atoms without terms (a molecule in a framework held rigid, a solute in a box
+        # of ions), the exclusion set a few atoms of the fragment plus two or three dozen host atoms scattered over the whole
+        # index range: sparse and wide compared with the term tables
+        host = int(rng.integers(1800, 3200))
+        utypes = list(utypes) + [["He4+4", "Ar4+4", "Na", "Cl", "Zr8f4", "O_3"][int(i)] for i in rng.integers(0, 6, host)]
+        utypes = [t if t in UFF4MOF else "Ar4+4" for t in utypes]
+        inside = [int(x) for x in rng.choice(n, size=int(rng.integers(0, min(n, 6) + 1)), replace=False)]
+        exclude = inside + [int(x) for x in n + rng.choice(host, size=int(rng.integers(18, 40)), replace=False)]
+        n = n + host
+        for i_ in range(n - host, n):
+            adj[i_] = set()
+        st.count("exclusion_sets_scattered_over_a_host_of_some_thousand_atoms")
+    w = {"n": n, "bonds": bonds, "uff_types": utypes if n < 100 else utypes[:40], "exclude": exclude}
 
     def fail(msg, cls=None):
         ctx.fail(msg, witness=dict(w, clause=cls))
@@ -448,6 +461,8 @@ def requirements(stats, tier):
         need.append("graphs with one atom type per atom: %d" % stats.get("graphs_with_one_atom_type_per_atom_listed_in_another_order"))
     if stats.get("graphs_with_an_atom_of_nine_or_more_neighbours") < (10 if tier == "quick" else 1000):
         need.append("graphs with an atom of nine or more neighbours: %d" % stats.get("graphs_with_an_atom_of_nine_or_more_neighbours"))
+    if stats.get("exclusion_sets_scattered_over_a_host_of_some_thousand_atoms") < (15 if tier == "quick" else 5000):
+        need.append("exclusion sets scattered over a host of some thousand atoms: %d" % stats.get("exclusion_sets_scattered_over_a_host_of_some_thousand_atoms"))
     if stats.nseen("shape") < 5 or stats.nseen("type_source") < 4 or stats.nseen("exclude_class") < 3:
         need.append("not all graph / type / exclusion classes observed")
     if stats.get("graphs_with_rings") < 20 or stats.get("graphs_with_high_degree_node") < 20:
